@@ -23,6 +23,10 @@ class SpecAbort(Exception):
     pass
 
 
+class SpecVacuous(SpecAbort):
+    """the guard under which something is evaluated speculatively is infeasible on this path"""
+
+
 class EngineFault(Exception):
     """the executor detected an inconsistency in itself (exit 3, never a verdict)"""
 
@@ -231,6 +235,8 @@ class Ctx:
             # inside a speculative (merge) evaluation only decisions with a single feasible option
             # are allowed; they are not recorded
             feas = [j for j in range(n) if ok(j)]
+            if len(feas) == 0:
+                raise SpecVacuous()      # the guard of this speculative evaluation contradicts the path condition
             if len(feas) != 1:
                 raise SpecAbort()
             self.assume(opts[feas[0]])
@@ -446,6 +452,11 @@ class Interp:
 
     def _resolve(self, e, hint=None, origin=None):
         V = VAL
+        if hint in ('list', 'Tape') and origin is not None:
+            # typed container (descriptor dict[list] / the definitions table): its values are object
+            # references by the typing precondition of the container -- no fork over value kinds
+            self.ctx.assume(V.is_vref(e))
+            return self.deref(V.r(e), hint, origin)
         # (a value read from a dict or passed as an argument is never `absent`)
         opts = [V.is_vbytes(e), V.is_vint(e), V.is_vblist(e), V.is_vbool(e), V.is_vstr(e), V.is_vfloat(e),
                 V.is_vnone(e), V.is_vref(e), V.is_vopq(e)]
@@ -824,6 +835,7 @@ class Interp:
         ctx.ghost['speculating'] = old_guard + 1
         ok = True
         out = None
+        vac_ = False
         try:
             ctx.prefix = ctx.prefix[:len(ctx.taken)]   # no forced decisions inside
             before = dict(scratch.vars)
@@ -834,6 +846,7 @@ class Interp:
                 out = {k: v for k, v in vars_after.items() if k not in before or before[k] is not v}
         except (PyRaise, PathAbort, _Return, _Break, _Continue, SpecAbort) as ex_:
             ok = False
+            vac_ = isinstance(ex_, SpecVacuous)
             if os.environ.get('PYVC_DEBUG') == '2':
                 import traceback
                 print('speculation aborted by', repr(ex_))
@@ -857,6 +870,7 @@ class Interp:
             if forced == 1 and not ok:
                 raise EngineFault('a speculation that succeeded in the run that produced the prefix fails on replay')
             ctx.taken.append((1 if ok else 0, 1, 'spec'))
+        self.last_spec_vacuous = vac_
         return out if ok else None
 
     def heap_write_guard(self):
